@@ -1,4 +1,5 @@
 import Jose.Jwk
+import Jose.Grid.C06
 import Jose.Lemmas.Json
 /-
   C06 — private key material never leaves (public-export half).
@@ -363,5 +364,18 @@ example :
       some (.obj [("kty", .str "rsa"), ("n", .str "AQ"), ("e", .str "AQAB"),
                   ("key_ops", .arr [.str "verify", .int 7])]) := by
   rfl
+
+
+/-! ### the model is the code, on a grid regenerated from the code on every run
+
+  `Jose/Grid/C06.lean` is rewritten by the translator (tools/extract_tables.py) on every run: it holds
+  what the library **built from the current working tree** answered, in-process, to a fixed grid of
+  operations — public export `jose_jwk_pub`: every key type in three spellings of `kty`, with every single private member and typical subsets removed, six `key_ops` shapes, unknown types, arrays, JWKSets, nested and malformed containers (each answer includes the idempotence flag).
+  `Driver.agrees` evaluates the model's handler for the row's operation (the same handler the
+  correspondence run uses) and compares with the recorded answer by `json_equal`.  The theorem is
+  checked by the kernel (`decide +kernel`: evaluation, no axiom); any edit of the C that changes one of
+  these answers makes it false, and the check then reports a violation. -/
+theorem model_is_code_on_grid : Jose.Grid.C06.chunks.all (fun c => c.all Jose.Driver.agrees) = true := by
+  decide +kernel
 
 end Jose.Props.C06
